@@ -77,9 +77,11 @@ func runOne(t *testing.T, v variant, c *mc.Chooser) (out mc.Outcome) {
 		out.Violations = append(out.Violations, fmt.Sprintf(f, a...)+fmt.Sprintf(" [variant %s; trace %v]", v.name, c.Trace()))
 		out.Sigs = append(out.Sigs, sig)
 	}
+	ev.Journal("variant=%s prefix=%v", v.name, c.Prefix())
 	res := bubble.Run(t, func() {
 		gates := bubble.NewGates("proxyserver.Serve.beforeInShutdown", "proxyserver.Serve.beforeShutdown", "proxyserver.Serve.beforeLnClose",
-			"proxyserver.serveConn.beforeSend")
+			"proxyserver.serveConn.beforeSend", "memnet.Listener.Close.after")
+		gates.HookMemnet()
 		// (no gate in ChannelListener.Accept here: parking the h1 accept loop lets a pending hand-off and the cancelled
 		// context become ready in the same select, which Go resolves randomly - nondeterminism the explorer cannot own)
 		defer gates.Uninstall()
@@ -109,7 +111,6 @@ func runOne(t *testing.T, v variant, c *mc.Chooser) (out mc.Outcome) {
 			&bubble.Actor{Name: "w3", Steps: []bubble.Step{
 				{Name: "connect h1", Do: func() { w3 = st.Connect("w3", nil, helloH1) }},
 				{Name: "request /hold-h1", Do: func() { w3.SendH1(bubble.Req{Path: "/hold-h1", Host: "localhost"}) }},
-				{Name: "release /hold-h1", Do: func() { w.release("/hold-h1") }, Enabled: func() bool { return w.h1Holding() }},
 			}},
 		)
 		if v.withH2 {
@@ -126,11 +127,24 @@ func runOne(t *testing.T, v variant, c *mc.Chooser) (out mc.Outcome) {
 		}
 		actors = append(actors,
 			&bubble.Actor{Name: "cancel", Steps: cancelSteps},
+			&bubble.Actor{Name: "watcher"}, // no environment steps: the cancel watcher's gates are scheduled here
 			&bubble.Actor{Name: "w5", Steps: []bubble.Step{
-				{Name: "late connect", Enabled: func() bool { return w.cancelled }, Do: func() { w5 = st.Connect("w5", nil, helloH1); w.afterCancelPaths["/late"] = true }},
+				{Name: "late connect", Enabled: func() bool { return w.cancelled }, Do: func() {
+					h := helloH1
+					if v.withH2 {
+						h = helloH2 // an h2 connection is served by serveConn itself, without the h1 hand-off
+					}
+					w5 = st.Connect("w5", nil, h)
+					w.afterCancelPaths["/late"] = true
+				}},
 				{Name: "late request", Do: func() {
 					if done, err := w5.Handshake(); done && err == nil {
-						w5.SendH1(bubble.Req{Path: "/late", Host: "localhost"})
+						if v.withH2 {
+							w5.StartH2()
+							w5.SendH2(1, bubble.Req{Path: "/late", Host: "localhost"})
+						} else {
+							w5.SendH1(bubble.Req{Path: "/late", Host: "localhost"})
+						}
 					}
 				}},
 			}},
@@ -138,7 +152,11 @@ func runOne(t *testing.T, v variant, c *mc.Chooser) (out mc.Outcome) {
 				{Name: "+2s", Enabled: func() bool { return w.cancelled }, Do: func() { time.Sleep(2 * time.Second) }},
 				{Name: "+2s", Do: func() { time.Sleep(2 * time.Second) }},
 			}},
+			&bubble.Actor{Name: "w3r", Steps: []bubble.Step{
+				{Name: "release /hold-h1", Do: func() { w.release("/hold-h1") }, Enabled: func() bool { return w.h1Holding() }},
+			}},
 		)
+		gates.NameKey(st.Ln, "watcher")
 		named := 0
 		check := func() bool {
 			cls := st.Clients()
